@@ -106,6 +106,33 @@ def _replace_first(sp, cur, path, alt):
     return sp
 
 
+def size_names(sp, out):
+    if isinstance(sp, S.Arr):
+        out.update(x for x in sp.shape if isinstance(x, str))
+    elif isinstance(sp, S.Size):
+        out.add(sp.name)
+    elif isinstance(sp, (S.SliceT, S.ViewOf)):
+        out.update(x for x in (sp.lo, sp.hi) if isinstance(x, str))
+    elif isinstance(sp, S.Seq):
+        if isinstance(sp.size, str):
+            out.add(sp.size)
+        size_names(sp.elem, out)
+    elif isinstance(sp, S.OneOf):
+        for a in sp.alts:
+            size_names(a, out)
+    elif isinstance(sp, S.Obj):
+        for v in sp.attrs.values():
+            size_names(v, out)
+    elif isinstance(sp, S.DictT):
+        for v in sp.items.values():
+            size_names(v, out)
+    elif isinstance(sp, (S.TupleT, S.ListT)):
+        for v in sp.items:
+            size_names(v, out)
+    elif isinstance(sp, S.Callable):
+        size_names(sp.ret, out)
+
+
 def cfg_label(cfg, params):
     parts = []
     for k, i in sorted(cfg.items()):
@@ -134,6 +161,8 @@ def instantiate(interp, sp, name, shared, sizes=None):
         return _const(interp, sp.v)
     if isinstance(sp, S.Real):
         v = z3.Real(ctx.fresh_name(name))
+        if sp.kw.get('finite'):
+            ctx.assume(z3.And(v >= -z3.RealVal('1.8e308'), v <= z3.RealVal('1.8e308')))
         return v
     if isinstance(sp, S.FP):
         return z3.FP(ctx.fresh_name(name), FPS)
@@ -251,6 +280,10 @@ def bind_sizes(interp, sp, val, sizes, what):
     elif isinstance(sp, S.Size):
         if sp.name not in sizes:
             sizes[sp.name] = val
+    elif isinstance(sp, S.SliceT) and isinstance(val, slice):
+        for nm, x in ((sp.lo, val.start), (sp.hi, val.stop)):
+            if isinstance(nm, str) and nm not in sizes and x is not None:
+                sizes[nm] = x
     elif isinstance(sp, S.TupleT) and isinstance(val, tuple):
         for v, x in zip(sp.items, val):
             bind_sizes(interp, v, x, sizes, what)
@@ -266,6 +299,8 @@ def spec_matches(sp, val):
         sp = S.Const(sp)
     if isinstance(sp, S.Const):
         v = sp.v
+        if isinstance(v, bool) and is_bool_term(val):
+            return True
         if v is None or isinstance(v, (bool, str)):
             return val is v or (isinstance(v, str) and val == v)
         if isinstance(v, (int, float)):
@@ -393,6 +428,17 @@ def discharge(ob, timeout_ms=10000, extra=(), nice=None):
             ob.model = s1.model()
             if nice is not None:
                 try:
+                    # counter-models must respect the universal hypotheses on all small indices
+                    for U in ob.universals:
+                        for j in range(0, 5):
+                            try:
+                                h = U(z3.IntVal(j))
+                            except Exception:
+                                continue
+                            if not isinstance(h, bool):
+                                s1.add(h)
+                    if s1.check() == z3.sat:
+                        ob.model = s1.model()
                     m2 = nice(s1, ob.model)
                     if m2 is not None:
                         ob.model = m2
@@ -553,7 +599,7 @@ def concretize(v, m, memo=None, maxn=6):
         return {'__obj__': v.cls, 'id': memo[id(v)],
                 'attrs': {k: concretize(x, m, memo) for k, x in v.attrs.items()}}
     if isinstance(v, dict):
-        return {'__dict__': [[k if isinstance(k, (str, int)) else repr(k), concretize(x, m, memo)] for k, x in v.items()]}
+        return {'__dict__': [[k if isinstance(k, (str, int)) else (list(k) if isinstance(k, tuple) else repr(k)), concretize(x, m, memo)] for k, x in v.items()]}
     if isinstance(v, (list, tuple)):
         return {'__seq__': [concretize(x, m, memo) for x in v], 'tuple': isinstance(v, tuple)}
     if isinstance(v, Opaque):
@@ -746,6 +792,11 @@ def verify_contract(c, registry, overrides=None, timeout_ms=10000, log=None, wan
                 penv = {}
                 for pname, sp in ps.items():
                     penv[pname] = instantiate(it, sp, pname, shared)
+                allsizes = set()
+                for sp in c.params.values():
+                    size_names(sp, allsizes)
+                for nm in sorted(allsizes):
+                    get_size(it, nm)
                 it.frames.append(Frame(mod, cname, fn, penv))
                 try:
                     for gname, gexpr in c.ghosts.items():
